@@ -164,6 +164,11 @@ fn bytes_to_os_string(bytes: &[u8]) -> OsString {
 struct MaxCharsCommandSizeLimiter {
     current_size: usize,
     max_chars: usize,
+    /// Bytes charged per argument on top of its characters (the system limit
+    /// also pays for the argv pointer; -s does not).
+    per_arg_overhead: usize,
+    /// Largest single argument (with its terminator) that can be passed at all.
+    max_arg_size: Option<usize>,
 }
 
 impl MaxCharsCommandSizeLimiter {
@@ -171,6 +176,8 @@ impl MaxCharsCommandSizeLimiter {
         Self {
             current_size: 0,
             max_chars,
+            per_arg_overhead: 0,
+            max_arg_size: None,
         }
     }
 
@@ -186,14 +193,27 @@ impl MaxCharsCommandSizeLimiter {
         // POSIX requires that we leave 2048 bytes of space so that the child processes
         // can have room to set their own environment variables.
         const ARG_HEADROOM: usize = 2048;
+        // The kernel refuses any single argument or environment string longer
+        // than this (Linux: MAX_ARG_STRLEN, 32 pages), terminator included.
+        const MAX_SINGLE_ARG: usize = 128 * 1024;
+        // Besides the strings, every argv and envp entry costs one pointer.
+        const POINTER_SIZE: usize = std::mem::size_of::<*const u8>();
         let arg_max = unsafe { uucore::libc::sysconf(uucore::libc::_SC_ARG_MAX) } as usize;
 
         let env_size: usize = env
             .iter()
-            .map(|(var, value)| count_osstr_chars_for_exec(var) + count_osstr_chars_for_exec(value))
+            .map(|(var, value)| {
+                count_osstr_chars_for_exec(var) + count_osstr_chars_for_exec(value) + POINTER_SIZE
+            })
             .sum();
 
-        Self::new(arg_max - ARG_HEADROOM - env_size)
+        Self {
+            current_size: 0,
+            // also leave room for the NULL entries that end argv and envp
+            max_chars: arg_max.saturating_sub(ARG_HEADROOM + env_size + 2 * POINTER_SIZE),
+            per_arg_overhead: POINTER_SIZE,
+            max_arg_size: Some(MAX_SINGLE_ARG),
+        }
     }
 }
 
@@ -203,8 +223,13 @@ impl CommandSizeLimiter for MaxCharsCommandSizeLimiter {
         arg: Argument,
         cursor: LimiterCursor<'_>,
     ) -> Result<Argument, ExhaustedCommandSpace> {
-        let chars = count_osstr_chars_for_exec(&arg.arg);
-        if self.current_size + chars <= self.max_chars {
+        let arg_size = count_osstr_chars_for_exec(&arg.arg);
+        let chars = arg_size + self.per_arg_overhead;
+        let can_be_passed = match self.max_arg_size {
+            Some(max) => arg_size <= max,
+            None => true,
+        };
+        if can_be_passed && self.current_size + chars <= self.max_chars {
             let arg = cursor.try_next(arg)?;
             self.current_size += chars;
             Ok(arg)
